@@ -27,8 +27,10 @@ def _crate_for(repo):
     os.makedirs(os.path.join(d, 'src'), exist_ok=True)
     os.makedirs(os.path.join(d, '.cargo'), exist_ok=True)
     toml = open(os.path.join(CRATE, 'Cargo.toml')).read().replace('/repo/crates/', real + '/crates/')
-    for rel, txt in (('Cargo.toml', toml), ('src/main.rs', open(os.path.join(CRATE, 'src', 'main.rs')).read()),
-                     ('.cargo/config.toml', open(os.path.join(CRATE, '.cargo', 'config.toml')).read())):
+    files = [('Cargo.toml', toml), ('.cargo/config.toml', open(os.path.join(CRATE, '.cargo', 'config.toml')).read())]
+    for fn in sorted(os.listdir(os.path.join(CRATE, 'src'))):
+        files.append(('src/' + fn, open(os.path.join(CRATE, 'src', fn)).read()))
+    for rel, txt in files:
         path = os.path.join(d, rel)
         if not os.path.exists(path) or open(path).read() != txt:
             open(path, 'w').write(txt)
